@@ -31,7 +31,7 @@ def run(chk):
     nrand = 1500 if chk.tier == "thorough" else 40
     for scope in ("single", "multi", "arrays", "random"):
         cfg = os.path.join(W, f"placer_{scope}.cfg")
-        open(cfg, "w").write(f'SPECIFICATION Spec\nCONSTANTS Scope = "{scope}"  NRand = {nrand}\nINVARIANTS {INV if scope != "arrays" else "Emit"}\nCHECK_DEADLOCK FALSE\n')
+        open(cfg, "w").write(f'SPECIFICATION Spec\nCONSTANTS Scope = "{scope}"  NRand = {nrand}\nINVARIANTS {(INV + " OutlinesMatchSizes") if scope != "arrays" else "Emit"}\nCHECK_DEADLOCK FALSE\n')
         r = tlc.check(os.path.join(D, "MC_Placer.tla"), cfg, timeout=7200, mem="12g")
         chk.add_tlc(f"MC_Placer scope={scope} (all placement orders)", r)
         chk.tlc_must_pass("MC_Placer " + scope, r)
